@@ -1054,7 +1054,7 @@ func runC18(e *sim.Env) {
 
 func init() {
 	register(&Prop{
-		ID: "C18", Run: runC18, Flavour: "instrumented", Quick: 4000, Thorough: 120000, Level: "exploration",
+		ID: "C18", Run: runC18, Race: true, Flavour: "instrumented", Quick: 4000, Thorough: 120000, Level: "exploration",
 		Rule:        "one run = one drawn scenario. threadgroup: 1-12 threads (Add / AddContext / WithContext with drawn start and hold times, several at the same instant as a Stop) and 1-3 Stop callers; Stop returns only with no added thread live, never hangs once threads end, Add is refused exactly when Done is closed, contexts are cancelled. syncer-inflight: a real serving node with drawn MaxInflightRPCs {1,2,3,5,8,64,0,-1}, MaxInflightRPCsPerSubnet {0,-1,1,2,3,4,6,10,256} and subnet prefix {/32,/24,/16,/8,/0, out of range}, 1-6 real client syncers in drawn subnets each firing 1-12 tagged SendV2Blocks requests at drawn offsets; the server's ChainManager wrapper blocks each for its drawn time (5ms-3s) and counts concurrency per peer and per subnet (never above the limits); when no client gives up early and the subnet limit is out of reach every request is answered exactly once (back-pressure, no drops); afterwards a second wave sized exactly to the limits must be admitted all at once (slots returned), then Close; the first client also holds up to 40 blocks more than the server, whose own sync (parallel fetch, AddBlocks / AddValidatedV2Blocks delayed by a drawn time) is thus in progress; 1 run in 3 closes mid-burst instead. Close must return within the longest handler + 22s, only with no handler and no block submission of its own sync running, Run returns, later Connect fails, no handler starts afterwards. syncer-peercap: drawn MaxInboundPeers {0,1,2,3,5,8} / MaxOutboundPeers {0..4}, cap+1..cap+12 clients connecting (2 runs in 3 at the same instant, some churning) and 0-8 known listening nodes for the peer loop; at every 25ms poll the live inbound / outbound peers stay within the caps. rhp-close: real rhp4.Server with 1-10 concurrent RPCs whose contractor / sector-store calls block for drawn times, 1-2 concurrent Close calls at a drawn instant: Close returns within bound, only with no handler inside the host's stores, none enters afterwards, later RPCs fail. wallet-close: real wallet with blocking store / syncer during rebroadcast while reorg notifications keep arriving; Close returns, with the rebroadcast loop outside every call, and no call follows; distinct = (scenario, limit configuration, fault kinds); all completed runs non-trivial",
 		Real:        []string{"threadgroup.ThreadGroup", "syncer.Syncer with gateway + mux on both ends", "rhp4.Server + client RPC functions", "wallet.SingleAddressWallet", "chain.Manager"},
 		Stub:        []string{"network: simnet / simrhp in-memory transports", "blocking ChainManager / contractor / sector store / wallet store / syncer wrappers (the observation points)", "disk: simdisk.DB"},
